@@ -1,33 +1,21 @@
 ------------------------------ MODULE Trace_Join ------------------------------
 (* Trace validation for property C02: each line is one call x.join(y, ...) / x * y /             *)
-(* x.xor(y, ...) / x / y on real dictables, run under a CPU-time watchdog, with both operands    *)
-(* before and after and the encoded outcome (table, exception class, or timeout).                *)
-EXTENDS Join, Batch
+(* x.xor(y, ...) / x / y / x*y + x/y on real dictables, run under a CPU-time watchdog, with both  *)
+(* operands as they were immediately before and after the call and the encoded outcome (table,   *)
+(* exception class, or timeout).  x is the operand whose method is called, y the other one -     *)
+(* which may be the same object, or share its column lists with x (field shape, see JoinCalls);  *)
+(* the law is the same for every shape: Join(x, y, lk, rk, mode) on the two values.              *)
+EXTENDS JoinCalls, Batch
 
 IsCols(ks) == \A k \in 1..Len(ks) : ks[k][1] = "col"
+Has(o, f) == f \in DOMAIN o
 Verdict(o) ==
     LET x == o.x  y == o.y  lk == o.lk  rk == o.rk  out == o.out IN
     IF o.implicit /\ lk # [k \in 1..Len(Common(x, y)) |-> <<"col", Common(x, y)[k]>>] THEN "harness_domain_error"
+    ELSE IF Has(o, "shape") /\ o.shape = "same" /\ x # y THEN "harness_domain_error"       \* one object has one value
     ELSE IF out.kind = "timeout" THEN "does_not_terminate"
     ELSE IF o.x_after # x \/ o.y_after # y THEN "operand_changed"
-    ELSE IF o.op = "join" THEN
-        IF ~KeyNameOK(lk, rk) THEN (IF out.kind = "exc" /\ out.cls = "ValueError" THEN "" ELSE "two_computed_keys_not_rejected")
-        ELSE IF out.kind # "table" THEN "join_raised"
-        ELSE IF Range(out.cols) # JoinCols(x, y, lk, rk) THEN "join_columns"
-        ELSE IF ~BagEq(out.rows, JoinRows(x, y, lk, rk, o.mode), KeyNames(lk, rk)) THEN "join_rows"
-        ELSE ""
-    ELSE IF o.op = "xor" THEN
-        LET keep == IF o.mode = "r" THEN y ELSE x
-            other == IF o.mode = "r" THEN x ELSE y
-            kk == IF o.mode = "r" THEN rk ELSE lk
-            ko == IF o.mode = "r" THEN lk ELSE rk IN
-        IF out.kind # "table" THEN "xor_raised"
-        \* named deviation XorNoKey: with no key column there is nothing to exclude on - x comes back whole
-        ELSE IF Len(lk) = 0 THEN (IF Range(out.cols) = ColSet(x) /\ out.rows = x.rows THEN "" ELSE "xor_no_key")
-        ELSE IF Range(out.cols) # ColSet(keep) THEN "xor_columns"
-        ELSE IF ~BagEq(out.rows, XorRows(keep, other, kk, ko), {}) THEN "xor_rows"
-        ELSE ""
-    ELSE "unknown_op"
+    ELSE CallVerdict(o.op, x, y, lk, rk, o.mode, out)
 
 Init == BatchInit
 Next == BatchNext(Verdict)
